@@ -56,7 +56,14 @@ type StrOnly struct{ V int }
 
 func (s StrOnly) String() string { return "s" }
 
+type NP struct {
+	X int
+	Y int
+}
+
 type PS struct {
+	Nst       NP
+	Nst2      NP
 	Plain     int
 	Caseprobe int
 	gxBacking int
@@ -74,6 +81,8 @@ func CvProbe(i int) int { return i }
 func PostProbe(dst *PD, src *PS) {}
 
 type PD struct {
+	Nst       NP
+	Nst2      NP
 	Plain     int
 	CaseProbe int
 	Gx        int
@@ -113,6 +122,11 @@ func c09Setup(o *optCase, methods []string, bFirst bool) string {
 				if m == "A1" {
 					// list-valued and hook notations of A1 only: they must not reach A2 or B1
 					a.WriteString("\t// :literal LtA 11\n\t// :map Plain MpA\n\t// :conv CvProbe Plain CvA\n\t// :postprocess PostProbe\n")
+					// a notation below a struct that is otherwise copied as a whole: A1 on Nst, A2 on Nst2
+					a.WriteString("\t// :skip Nst.X\n")
+				}
+				if m == "A2" {
+					a.WriteString("\t// :skip Nst2.X\n")
 				}
 				fmt.Fprintf(&a, "\t// :skip Sk%s\n\t%s(*PS) *PD\n", m, m)
 			}
@@ -212,6 +226,21 @@ func c09Observe(fn *project.Func, method string, want map[string]string) (diffs 
 		}
 		if m == method && o.K == "nomatch" {
 			diffs = append(diffs, fmt.Sprintf("the method's own notation on field %s is not honoured", f))
+		}
+	}
+	// nested notations: member-wise copy exactly where this method addresses a member, whole copy elsewhere
+	for f, m := range map[string]string{"Nst": "A1", "Nst2": "A2"} {
+		if want["match"] == "off" {
+			continue
+		}
+		whole, _ := kind("DST." + f)
+		sub, _ := kind("DST." + f + ".X")
+		if m == method {
+			if sub.K != "skip" {
+				diffs = append(diffs, fmt.Sprintf("the method's own `:skip %s.X` is not honoured (%s)", f, sub.K))
+			}
+		} else if whole.K != "assign" {
+			diffs = append(diffs, fmt.Sprintf("dst.%s is not copied as a whole (%s) although only method %s has a notation below it", f, whole.K, m))
 		}
 	}
 	hooks := 0
